@@ -13,6 +13,7 @@ RULE = ("bounded-exhaustive enumeration: mpz division family (t/f/c x q/r/qr x m
         "kernels for n=1..40 x RUN contents x divisor alphabet; the same under the run-time-threshold build at the floor vector, shipped "
         "vectors and single-threshold deviations. Oracle: Python divmod. distinct_nontrivial = distinct (function, configuration, shape, "
         "content index / sign-size class) tuples.")
+RULE = RULE + (" " + 'Later additions: exact division on large operands; mpn_divrem with fraction limbs on every shape.')
 ASSUMPTIONS = ["Python int divmod is the reference model", "zero divisors are generated only where the manual defines the result (divisible/congruent predicates)",
                "contents outside the stated families and sizes above the stated bounds are not explored"]
 BUDGET = {"quick": 420, "thorough": 3300}
